@@ -40,7 +40,9 @@ def variants_of(c):
             continue           # the remaining combinations are proved by the thorough tier
         cv = {k: x for k, x in c.items() if k not in ('variants', 'quick_variants')}
         for k, x in v.items():
-            if k in ('requires', 'ensures') and k in cv:
+            if k.endswith('!'):
+                cv[k[:-1]] = x                    # `ensures!`: replace the base clause list instead of extending it
+            elif k in ('requires', 'ensures') and k in cv:
                 cv[k] = list(cv[k]) + list(x)
             elif isinstance(x, dict) and isinstance(cv.get(k), dict):
                 cv[k] = dict(cv[k], **x)
